@@ -110,9 +110,10 @@ static u64 bits_d(double f) { union { u64 u; double f; } c; c.f = f; return c.u;
   VF_ASSERT(isfinite_##S(x) == (_Bool)FIN_##S(x), "C16: isfinite(" #T ") iff exponent not all ones"); \
   VF_REACH(); }
 
-/* ---- fma (two paths; attempt) */
-#define B_FMA(T, S, KNOWN) { IN_##S(x); IN_##S(y); IN_##S(z); KNOWN; \
-  vf_ce = 1; T r1 = fma_##S(x, y, z); T e = VF_FMA_##S(x, y, z); \
+/* ---- fma (two paths).  The specification (prelude_extra.h) is evaluated first: KNOWN may refer to its ghost
+ *      vf_fma_inexact_f = "the float product x*y is not exact", a function of the inputs x, y. */
+#define B_FMA(T, S, KNOWN) { IN_##S(x); IN_##S(y); IN_##S(z); T e = VF_FMA_##S(x, y, z); KNOWN; \
+  vf_ce = 1; T r1 = fma_##S(x, y, z); \
   VF_ASSERT(SAME_##S(r1, e), "C16: fma(" #T ") constant-evaluated path equals x*y+z rounded ONCE"); \
   vf_ce = 0; T r0 = fma_##S(x, y, z); \
   VF_ASSERT(SAME_##S(r0, r1), "C13: fma(" #T ") run-time path and constant-evaluated path agree bit for bit"); \
@@ -221,10 +222,6 @@ S_FMOD_DEF(double, d, u64, 53, 11, 1023, 0x7ff8000000000000ull)
 /* A multiple of y has to be subtracted: bounded stand-in (normal operands, quotient below 8; the bit-level reference then needs
  * at most 4 division steps).  Only the quotient-1 band is right in general (x - y is exact, Sterbenz). */
 #define REDUCE_WIN_f (x_bits << 1 >= 0x01000000u && y_bits << 1 >= 0x01000000u && FMOD_DOM_f && (double)ABS_f(x) < 8 * (double)ABS_f(y))
-/* fma case split: alignment distance between the addend and the product (biased exponent fields), a total function into 0..5 */
-#define EXPF_f(b) ((int)(((b) >> 23) & 0xffu))
-#define FMA_D_f (EXPF_f(z_bits) - (EXPF_f(x_bits) + EXPF_f(y_bits) - 127))
-#define FMA_CELL_f (FMA_D_f < -26 ? 0 : FMA_D_f < -2 ? 1 : FMA_D_f < 0 ? 2 : FMA_D_f < 3 ? 3 : FMA_D_f < 27 ? 4 : 5)
 #define CE() VF_INPUT_BOOL(ce); vf_ce = ce
 
 /*@GROUP name=floor_f props=C16,C13,C02 kind=F@*/
@@ -296,8 +293,8 @@ void h_fmod_reduce_f(void) B_FMOD(float, f, __CPROVER_assume(REDUCE_WIN_f && ABS
 /*@GROUP name=remainder_reduce_f props=C16,C02 kind=B bound=normal-operands,|y|/2<|x|<8|y| unwind=26 solver=kissat timeout=300@*/
 void h_remainder_reduce_f(void) B_REMAINDER(float, f, __CPROVER_assume(REDUCE_WIN_f && 2 * (double)ABS_f(x) > (double)ABS_f(y)); VF_KNOWN(C16_remainder_is_fmod, ABS_f(x) < ABS_f(y) || 2 * (double)ABS_f(x) >= 3 * (double)ABS_f(y)); VF_KNOWN(C16_fmod_neg_zero, ABS_f(x) == ABS_f(y) && SIGN_f(x)))
 
-/*@GROUP name=fma_f props=C16,C13,C02 kind=S split=VF_CELL:0:5 timeout=600 tier=thorough solver=kissat@*/
-void h_fma_f(void) B_FMA(float, f, __CPROVER_assume(FMA_CELL_f == VF_CELL); VF_KNOWN(C16_fma_constexpr_not_fused, FIN_f(x) && FIN_f(y) && (double)(x * y) != (double)x * (double)y))
+/*@GROUP name=fma_f props=C16,C13,C02 kind=F timeout=600 tier=thorough solver=kissat@*/
+void h_fma_f(void) B_FMA(float, f, VF_KNOWN(C16_fma_constexpr_not_fused, FIN_f(x) && FIN_f(y) && vf_fma_inexact_f))
 
 /* ---------------- double: all 2^64 bit patterns symbolic (tier=thorough, time-boxed) */
 /*@GROUP name=floor_d props=C16,C13,C02 kind=F tier=thorough timeout=600@*/
